@@ -367,6 +367,16 @@ func (sb *sandbox) do(rq fsReq) (line string, goOut string) {
 		body = pfBodies[rq.pf]
 		if rq.method == "PROPPATCH" {
 			body = `<?xml version="1.0"?><D:propertyupdate xmlns:D="DAV:"><D:set><D:prop><D:displayname>x</D:displayname></D:prop></D:set></D:propertyupdate>`
+			// (other well-formed updates, by the request itself: a dead property of a foreign namespace as Windows
+			// clients set it, a removal, several instructions)
+			switch (len(rq.path) + len(pre)) % 4 {
+			case 1:
+				body = `<?xml version="1.0"?><D:propertyupdate xmlns:D="DAV:" xmlns:Z="urn:schemas-microsoft-com:"><D:set><D:prop><Z:Win32LastModifiedTime>Sat, 26 Sep 2026 10:00:00 GMT</Z:Win32LastModifiedTime></D:prop></D:set></D:propertyupdate>`
+			case 2:
+				body = `<?xml version="1.0"?><D:propertyupdate xmlns:D="DAV:"><D:remove><D:prop><x:color xmlns:x="urn:x"/></D:prop></D:remove></D:propertyupdate>`
+			case 3:
+				body = `<?xml version="1.0"?><propertyupdate xmlns="DAV:"><remove><prop><displayname/></prop></remove><set><prop><c:color xmlns:c="urn:example:z">red</c:color><displayname>y</displayname></prop></set></propertyupdate>`
+			}
 			if rq.pf == 'm' {
 				body = `<D:propertyupdate xmlns:D="DAV:">`
 			}
